@@ -36,13 +36,13 @@ w("D4b", "same, 8-bit index variant", ["C12", "C01"],
   "tree type=T8u8u8 slots=0 cap=0 keys=1,2", ["init 0", "ins 1 1", "rlen", "rem 1"])
 ops = ["init 255"] + [f"ins {k} {k % 251}" for k in range(255)] + ["full", "ins 255 0"] + \
       [f"rem {k}" for k in range(255)] + ["empty"] + [f"ins {k} {k % 7}" for k in range(254, -1, -1)] + ["full", "rlow", "ins 255 1"]
-w("D5", "u8 tree with capacity 255 overflowed the sequence on the last insertion (fixed e4f687a)", ["C12", "C07", "C01", "C04", "C10"],
+w("D5", "u8 tree with capacity 255 overflowed the sequence on the last insertion (fixed e4f687a)", ["C12", "C07", "C01", "C04", "C10", "C09"],
   "tree type=T8u8u8 slots=255 cap=255 keys=" + ",".join(str(k) for k in range(256)), ops)
 w("D6", "hash set contains divided by zero on an all-zero or capacity-zero set (fixed 91fcc3f)", ["C12", "C02"],
   "hset type=HU64 slots=3 cap=0 vals=0,1", ["rhas 1", "has 1", "iter", "rsize", "init 0", "rhas 1", "ins 1", "rem 1"])
 w("D7", "array set length prefix overflowed with more slots than the prefix can count (fixed 51e4ad4)", ["C12", "C03", "C09", "C04"],
   "aset type=A8u16 slots=300 vals=" + ",".join(str(k) for k in range(300)),
-  [f"ins {k}" for k in range(258)] + ["rlen", "full", "rhas 255", "rhas 256", "take 0", "ins 256", "rlen"])
+  [f"ins {k}" for k in range(258)] + ["rlen", "full", "rfull", "rempty", "rhas 255", "rhas 256", "take 0", "ins 256", "rlen"])
 # D11: a length prefix larger than the slot count (truncated / foreign buffer): u8 prefix 3 over 2 slots, u16 prefix over 1 slot
 w("D11", "array set trusted a length prefix larger than the number of value slots: out-of-bounds raw copy (fixed c509816)", ["C05", "C12"],
   "aset type=A8u8 slots=2 vals=1,2,9,10", ["state x030909", "rlen", "ins 1", "rem 9", "take 9", "ins 10", "rview", "has 9", "rhas 1"], nodriver=True)
